@@ -442,14 +442,53 @@ def r4_export_scope(ctx, rep):
         (first_ret.value is None or ast.unparse(first_ret.value) == "None") and \
         not any(e.kind == "assign" for e in ev[:ev.index(first_ret)])
     rep.ob("obj2dict skips entities that are themselves external", ok, "", py.nloc(o2d))
-    for q in ("FortranBase.get_url", "FortranBase.full_url"):
-        fn = py.func(q)
-        ev = astq.trace(fn)
-        first_ret = next((e for e in ev if e.kind == "return"), None)
-        ok = first_ret is not None and any("external_url" in c and not c.startswith("not ") for c in first_ret.cond_texts()) and \
-            first_ret.value is not None and ast.unparse(first_ret.value) == "self.external_url"
-        rep.ob(f"{q}: external_url short-circuits", ok, "an external entity's URL is its recorded external_url"
-               if ok else "URL of an external entity is recomputed locally", py.nloc(fn))
+    def ext_atom(t):
+        if isinstance(t, ast.Call) and call_name(t) == "hasattr" and len(t.args) == 2 and isinstance(t.args[1], ast.Constant) \
+                and t.args[1].value == "external_url":
+            return ("ext", True)
+        return None
+
+    def reads_external(e_: ast.AST, fn_) -> bool:
+        return any(ast.unparse(x) == "self.external_url" for x in [e_] + astq.expand_locals(e_, fn_))
+    # get_url: the first thing that can return is the recorded URL - under `hasattr(self, "external_url")`, or by simply trying
+    # to read the attribute (`try: return self.external_url / except AttributeError`)
+    fn = py.func("FortranBase.get_url")
+    ev = astq.trace(fn)
+    first_ret = next((e for e in ev if e.kind == "return"), None)
+    ok = False
+    if first_ret is not None and first_ret.value is not None and ast.unparse(first_ret.value) == "self.external_url":
+        tested = astq.path_implies(first_ret, ext_atom, {"ext": True}) is True
+        tried = any(p[0] == "try" and any(h is None or "AttributeError" in str(h) or "Exception" in str(h) for h in (p[1] or [None]))
+                    for p in first_ret.protected)
+        ok = tested or tried
+    rep.ob("FortranBase.get_url: external_url short-circuits", ok, "an external entity's URL is its recorded external_url"
+           if ok else "URL of an external entity is recomputed locally", py.nloc(fn))
+    # full_url: whatever can be returned for an entity that has `external_url` is that URL (directly, or as the result of
+    # get_url()) and is not prefixed with the local base URL
+    fn = py.func("FortranBase.full_url")
+    ev = astq.trace(fn)
+    rets = [e for e in ev if e.kind == "return" and e.value is not None]
+    ok = bool(rets)
+    for e in rets:
+        if astq.event_fires(e, ext_atom, {"ext": True}) is False:
+            continue              # cannot be reached by an external entity
+        alts = [e.value] + astq.expand_locals(e.value, fn)
+        is_none = isinstance(e.value, ast.Constant) and e.value.value is None
+        plain = any(ast.unparse(x) in ("self.external_url", "self.get_url()") for x in alts) and \
+            not any("base_url" in ast.unparse(x) for x in alts)
+        must_be_external = astq.path_implies(e, ext_atom, {"ext": True}) is True
+        if must_be_external and not plain:
+            ok = False
+        if not must_be_external and not plain and not is_none:
+            # reachable by both kinds: an external entity must have left earlier
+            earlier = [r for r in rets if r is not e and ev.index(r) < ev.index(e) and astq.path_implies(r, ext_atom, {"ext": True}) is True]
+            earlier_plain = [r for r in rets if r is not e and ev.index(r) < ev.index(e) and any(
+                ast.unparse(x) in ("self.external_url", "self.get_url()") for x in [r.value] + astq.expand_locals(r.value, fn))
+                and any("external_url" in c for c in r.cond_texts())]
+            if not earlier and not earlier_plain:
+                ok = False
+    rep.ob("FortranBase.full_url: external_url short-circuits", ok, "an external entity's URL is its recorded external_url"
+           if ok else "URL of an external entity is recomputed locally", py.nloc(fn))
 
 
 def _slash_normalisation(fn) -> Optional[Tuple[ast.AST, str]]:
@@ -669,6 +708,13 @@ def r9_ident_key(ctx, rep):
     from . import c10
     c10.r6_ident_not_a_key(ctx, rep)
 
+def r10_cached_description(ctx, rep):
+    """the external project's description is not handed out from a cache and then edited in place (generic rule
+    `cached_mutable_result`)"""
+    from . import common
+    common.cached_mutable_result(ctx, rep)
+
+
 RULES = [
     RuleSpec("C16.R6", r6_fresh_objects_and_node_urls, "one object per exported entity; external node URLs unchanged", floor=1),
     RuleSpec("C16.R1", r1_error_coverage, "exception coverage of the external load path", floor=5),
@@ -679,4 +725,5 @@ RULES = [
     RuleSpec("C16.R7", r7_url_types, "external URLs are strings; the local base is a Path", floor=2),
     RuleSpec("C16.R8", r8_use_over_host, "use association overrides host association (shared with C07.R2)", floor=4),
     RuleSpec("C16.R9", r9_ident_key, "entities are not identified by ident alone (shared with C10.R6)", floor=1),
+    RuleSpec("C16.R10", r10_cached_description, "memoised loaders do not share containers that callers edit", floor=1),
 ]
